@@ -59,7 +59,9 @@ def correspondence(ctx):
             return None
         return (f[0], f[1] if f[0] != 'allows.id' else '', f[2] if f[0] in ('prof', 'rules') else '', tuple(len(chr(c).encode()) if c not in (0x20, 0xA0, 0x3000) else 'S' for c in s))
 
-    evaluate(corr, res, nontrivial)   # an implementation PANIC is a violation with that case as the failing input
+    # C01 is about returning at all: an implementation PANIC is a violation with that case as the failing input;
+    # whether the returned value is the right one is the business of C02-C14 (their verdicts are not used here)
+    evaluate(corr, res, nontrivial, use_verdicts=False)
     corr.count('implementation_panics', len([1 for r in res if r[1] == 'PANIC']))
     corr.exhaustive = True
     corr.rule = (f'every public operation under catch_unwind: prepare/enforce of the four profiles (fresh instance and static API), all five Rules methods, allows of both classes on ALL strings of length <= {maxlen} over '
